@@ -55,7 +55,19 @@ func VerifC15FailuresV1() {
 	kv := nd.StringN("k.v", 1)
 	_, err := c.PutItem(&dynamodb.PutItemInput{TableName: aws.String(vTbl), Item: vItem{"p": vS("k"), "v": vS(kv)}})
 	nd.Assert(err == nil, "setup-put")
+	nd.Assert(AddTable(c, "tb2", "p", "") == nil, "setup-addtable2")
+	_, err = c.PutItem(&dynamodb.PutItemInput{TableName: aws.String("tb2"), Item: vItem{"p": vS("k2"), "v": vS(kv)}})
+	nd.Assert(err == nil, "setup-put2")
+	scan2 := func() []vItem {
+		out, serr := c.Scan(&dynamodb.ScanInput{TableName: aws.String("tb2")})
+		nd.Assert(serr == nil, "scan2-noerr")
+		if serr != nil {
+			return nil
+		}
+		return out.Items
+	}
 	before := vScanV1(c)
+	before2 := scan2()
 	tbl := aws.String(vTbl)
 	internal := false
 	switch nd.Choice("condition", 3) {
@@ -83,7 +95,19 @@ func VerifC15FailuresV1() {
 	case 2:
 		names = map[string]*string{"#unused": aws.String("v")}
 	}
-	switch nd.Choice("op", 8) {
+	reqs2 := []*dynamodb.WriteRequest{
+		{DeleteRequest: &dynamodb.DeleteRequest{Key: vItem{"p": vS("k2")}}},
+		{PutRequest: &dynamodb.PutRequest{Item: vItem{"p": vS("n2"), "v": vS(x)}}},
+	}
+	twoTables := false
+	switch nd.Choice("op", 9) {
+	case 8:
+		batch, twoTables = true, true
+		var out *dynamodb.BatchWriteItemOutput
+		out, err = c.BatchWriteItem(&dynamodb.BatchWriteItemInput{RequestItems: map[string][]*dynamodb.WriteRequest{vTbl: reqs, "tb2": reqs2}})
+		if out != nil {
+			unprocessed = out.UnprocessedItems
+		}
 	case 0:
 		_, err = c.PutItem(&dynamodb.PutItemInput{TableName: tbl, Item: vItem{"p": vS("k"), "v": vS(x)}, ExpressionAttributeNames: names})
 	case 1:
@@ -122,6 +146,21 @@ func VerifC15FailuresV1() {
 			}
 			nd.Assert(puts == 1 && dels == 1, "C15v1-batch-unprocessed-requests-are-the-originals")
 		}
+		if twoTables {
+			nd.Reach("two-table-batch-under-internal-failure")
+			puts, dels := 0, 0
+			for _, u := range unprocessed["tb2"] {
+				if u.PutRequest != nil && u.DeleteRequest == nil && vSameS([]vItem{u.PutRequest.Item}, []vItem{{"p": vS("n2"), "v": vS(x)}}) {
+					puts++
+				}
+				if u.DeleteRequest != nil && u.PutRequest == nil && vSameS([]vItem{u.DeleteRequest.Key}, []vItem{{"p": vS("k2")}}) {
+					dels++
+				}
+			}
+			nd.Assert(len(unprocessed["tb2"]) == 2 && puts == 1 && dels == 1 && len(unprocessed) == 2, "C15v1-batch-unprocessed-requests-are-the-originals-per-table")
+		} else {
+			nd.Assert(len(unprocessed) == 1, "C15v1-batch-unprocessed-only-for-tables-named")
+		}
 	} else {
 		nd.Assert(vIsConfigured(err, internal), "C15v1-data-call-returns-configured-error")
 	}
@@ -131,6 +170,7 @@ func VerifC15FailuresV1() {
 		DeactiveForceFailure(c)
 	}
 	nd.Assert(vSameS(before, vScanV1(c)), "C15v1-failing-call-changes-nothing")
+	nd.Assert(vSameS(before2, scan2()), "C15v1-failing-call-changes-nothing-in-the-other-table")
 	_, err = c.PutItem(&dynamodb.PutItemInput{TableName: stored, Item: vItem{"p": vS("k"), "v": vS("after")}})
 	nd.Assert(err == nil, "C15v1-works-after-deactivation")
 	nd.Reach("end")
